@@ -11,11 +11,39 @@ import (
 	"go/token"
 )
 
-func instrumentSource(filename string, src []byte, lines map[int]string) ([]byte, error) {
+// instrumentSource inserts vfSched("<id>") before the statements at the given lines and, for
+// every function literal started as a goroutine (go func(){...}() or x.Go(func(){...})) whose
+// line is in goSites, `defer vfGoSite("<rel>:<line>")()` as its first statement.
+func instrumentSource(filename string, src []byte, lines map[int]string, goSites map[int]string) ([]byte, error) {
 	fset := token.NewFileSet()
 	f, err := parser.ParseFile(fset, filename, src, parser.ParseComments)
 	if err != nil {
 		return nil, err
+	}
+	markLit := func(e ast.Expr) {
+		lit, ok := e.(*ast.FuncLit)
+		if !ok {
+			return
+		}
+		site, ok := goSites[fset.Position(lit.Pos()).Line]
+		if !ok {
+			return
+		}
+		call := &ast.DeferStmt{Call: &ast.CallExpr{Fun: &ast.CallExpr{Fun: ast.NewIdent("vfGoSite"), Args: []ast.Expr{&ast.BasicLit{Kind: token.STRING, Value: `"` + site + `"`}}}}}
+		lit.Body.List = append([]ast.Stmt{call}, lit.Body.List...)
+	}
+	if len(goSites) > 0 {
+		ast.Inspect(f, func(n ast.Node) bool {
+			switch x := n.(type) {
+			case *ast.GoStmt:
+				markLit(x.Call.Fun)
+			case *ast.CallExpr:
+				if sel, ok := x.Fun.(*ast.SelectorExpr); ok && sel.Sel.Name == "Go" && len(x.Args) == 1 {
+					markLit(x.Args[0])
+				}
+			}
+			return true
+		})
 	}
 	done := map[int]bool{}
 	mkCall := func(id string) ast.Stmt {
